@@ -66,6 +66,15 @@ MOTIFS = {
 }
 
 
+# separation-specific shapes (used by C04, C15, C20 only)
+SEP_MOTIFS = {
+    # the pair (x, y) has two non-nested minimal separators, {m} and {a, b}
+    "two_separators": {"di": [("a", "x"), ("b", "x"), ("a", "m"), ("b", "m"), ("m", "y")], "bi": [("a", "b")]},
+    # a collider whose only conditioned descendant is two steps away
+    "far_collider": {"di": [("a", "m"), ("m", "n"), ("n", "z")], "bi": [("m", "b")]},
+}
+
+
 def _motif_topo(motif):
     import networkx as nx
 
@@ -76,10 +85,11 @@ def _motif_topo(motif):
 
 
 @st.composite
-def embedded_admgs(draw, max_extra=2, pool=None):
+def embedded_admgs(draw, max_extra=2, pool=None, motifs=None):
     """A motif with up to ``max_extra`` extra nodes wired in at random (still acyclic)."""
-    mname = draw(st.sampled_from(sorted(MOTIFS)))
-    motif = MOTIFS[mname]
+    motifs = MOTIFS if motifs is None else motifs
+    mname = draw(st.sampled_from(sorted(motifs)))
+    motif = motifs[mname]
     mnodes = _motif_topo(motif)
     extra = draw(st.integers(0, max_extra))
     n = len(mnodes) + extra
